@@ -132,4 +132,8 @@ theorem f_refines_aux {w} (htab : Gen.KeccakG.rhoOffsets = Spec.Keccak.rhoTable.
   rw [rounds_refines htab h hrc _ hn A]
   simp [Spec.Keccak.keccakF, Spec.Keccak.keccakP, Spec.Keccak.nRounds]
 
+theorem dvd64 {w} (hw : w ∈ [1, 2, 4, 8, 16, 32, 64]) : w ∣ 64 := by
+  simp only [List.mem_cons, List.not_mem_nil, or_false] at hw
+  rcases hw with rfl | rfl | rfl | rfl | rfl | rfl | rfl <;> decide
+
 end Proofs.Lemmas.KeccakLane
